@@ -24,10 +24,12 @@ def vqEff (a : Auction) (p : Int × Int) : GEff :=
     GVal.vq ({ auction := ((a.id : Int)).toNat, auctioneer := a.auctioneer, denom := a.payDenom,
                amt := p.2, release := p.1, released := false } : VQ)]
 
-theorem avs_loop (a : Auction) (rc : Coin) (vsLen : Int) (l : List VS) (i : Int) (rem : Coin)
+theorem avs_loop (a : Auction) (bal : Addr → Denom → Int) (l : List VS)
+    (i : Int) (rem : Coin)
     (effs : List GEff) (parts : List (Int × Int))
-    (hlen : i + l.length = vsLen) (hs : splitLoop rc.amt l rem.amt = some parts) :
-    ∃ r, ApplyVestingSchedules.loop1 a a.payDenom rc vsLen l i rem effs
+    (hlen : i + l.length = (a.schedules.length : Int))
+    (hs : splitLoop (bal (Addr.pay a.id) a.payDenom) l rem.amt = some parts) :
+    ∃ r, ApplyVestingSchedules.loop1 a bal l i rem effs
       = Loop.done (r, effs ++ parts.map (vqEff a)) := by
   induction l generalizing i rem effs parts with
   | nil =>
@@ -39,7 +41,7 @@ theorem avs_loop (a : Auction) (rc : Coin) (vsLen : Int) (l : List VS) (i : Int)
     | nil =>
       unfold ApplyVestingSchedules.loop1
       simp only [splitLoop] at hs
-      have hi : i = vsLen - 1 := by simp at hlen; omega
+      have hi : i = (a.schedules.length : Int) - 1 := by simp at hlen; omega
       by_cases hr : rem.amt < 0
       · simp [hr] at hs
       · simp [hr] at hs
@@ -47,16 +49,16 @@ theorem avs_loop (a : Auction) (rc : Coin) (vsLen : Int) (l : List VS) (i : Int)
         simp [hi, ApplyVestingSchedules.loop1, vqEff]
     | cons s' rest' =>
       unfold ApplyVestingSchedules.loop1
-      have hi : ¬ i = vsLen - 1 := by simp at hlen; omega
+      have hi : ¬ i = (a.schedules.length : Int) - 1 := by simp at hlen; omega
       simp only [splitLoop] at hs
       simp only [hi, decide_false, Bool.false_eq_true, if_false]
-      generalize ((Dec.ofInt rc.amt).mulTrunc s.weight).truncInt = amt at hs ⊢
+      generalize ((Dec.ofInt (bal (Addr.pay a.id) a.payDenom)).mulTrunc s.weight).truncInt = amt at hs ⊢
       by_cases h1 : amt < 0
       · simp [h1] at hs
       by_cases h2 : rem.amt - amt < 0
       · simp [h1, h2] at hs
       simp only [h1, h2, if_false] at hs
-      cases hp : splitLoop rc.amt (s' :: rest') (rem.amt - amt) with
+      cases hp : splitLoop (bal (Addr.pay a.id) a.payDenom) (s' :: rest') (rem.amt - amt) with
       | none => simp [hp] at hs
       | some ps =>
         simp [hp] at hs
@@ -111,9 +113,9 @@ theorem bankCall_views {c c' : Ctx} {k : XKind} {src dst : Addr} {coins : List C
   obtain ⟨_, b, _, rfl⟩ := bankCall_ok h
   exact ⟨rfl, rfl⟩
 
-theorem rel_loop (aid N : Nat) (now : Int) (l : List VQ) (i : Nat) (a : Auction) (effs : List GEff)
+theorem rel_loop (aid : Nat) (L : List VQ) (N : Nat) (hN : L.length = N) (now : Int) (l : List VQ) (i : Nat) (a : Auction) (effs : List GEff)
     (hid : a.id = aid) (hq : ∀ q ∈ l, q.auction = aid) :
-    ∃ a' E, ReleaseVestingPayingCoin.loop1 now (N : Int) l (i : Int) a effs = Loop.done (a', effs ++ E) ∧
+    ∃ a' E, ReleaseVestingPayingCoin.loop1 now L l (i : Int) a effs = Loop.done (a', effs ++ E) ∧
       ∀ (c : Ctx) (w : AView), c.s.views[aid]? = some w → w.a = a → c.s.now = now →
         releaseLoop c aid a.auctioneer N i l = runSettle aid E c := by
   induction l generalizing i a effs with
@@ -124,7 +126,7 @@ theorem rel_loop (aid N : Nat) (now : Int) (l : List VQ) (i : Nat) (a : Auction)
     have hqa : q.auction = aid := hq q (by simp)
     have hq' : ∀ q' ∈ rest, q'.auction = aid := fun q' h => hq q' (by simp [h])
     unfold ReleaseVestingPayingCoin.loop1
-    simp only [tie_ShouldRelease, hcast]
+    simp only [tie_ShouldRelease, hcast, hN]
     by_cases hc : q.release ≤ now ∧ q.released = false
     · have hdec : (decide (q.release ≤ now) && !q.released) = true := by grind
       simp only [hdec, if_true, Bool.not_true, Bool.false_eq_true, if_false]
@@ -231,10 +233,10 @@ theorem tie_ApplyVestingSchedules (c : Ctx) (aid : Nat) (v : AView) (hv : c.s.vi
     cases hsp : splitLoop (c.s.bank (.pay aid) v.a.payDenom) v.a.schedules (c.s.bank (.pay aid) v.a.payDenom) with
     | none => simp [hsp] at hsplit
     | some parts =>
-      obtain ⟨r, hr⟩ := avs_loop v.a ⟨v.a.payDenom, c.s.bank (.pay aid) v.a.payDenom⟩ (v.a.schedules.length : Int)
+      obtain ⟨r, hr⟩ := avs_loop v.a c.s.bank
         v.a.schedules 0 ⟨v.a.payDenom, c.s.bank (.pay aid) v.a.payDenom⟩
         ([] ++ [GEff.mk GName.sendCoins [GVal.addr (Addr.pay v.a.id), GVal.addr (Addr.vest v.a.id),
-          GVal.coin ⟨v.a.payDenom, c.s.bank (.pay aid) v.a.payDenom⟩]]) parts (by simp) hsp
+          GVal.coin ⟨v.a.payDenom, c.s.bank (.pay aid) v.a.payDenom⟩]]) parts (by simp) (by rw [hid]; exact hsp)
       simp only [hid] at hr
       simp only [hne, hid, decide_false, Bool.false_eq_true, if_false, hr]
       simp only [runSettlePlan, List.nil_append, List.cons_append, runSettle_cons,
@@ -255,7 +257,7 @@ theorem tie_ApplyVestingSchedules (c : Ctx) (aid : Nat) (v : AView) (hv : c.s.vi
 theorem tie_ReleaseVestingPayingCoin (c : Ctx) (aid : Nat) (v : AView) (hv : c.s.views[aid]? = some v)
     (hid : v.a.id = aid) (hq : ∀ q ∈ v.vqs, q.auction = aid) :
     releaseVesting c aid = Go.runSettlePlan c aid (Gen.ReleaseVestingPayingCoin v.a (rdVqs c.s) c.s.now) := by
-  obtain ⟨a', E, h1, h2⟩ := rel_loop aid v.vqs.length c.s.now v.vqs 0 v.a [] hid hq
+  obtain ⟨a', E, h1, h2⟩ := rel_loop aid v.vqs v.vqs.length rfl c.s.now v.vqs 0 v.a [] hid hq
   unfold releaseVesting Gen.ReleaseVestingPayingCoin
   have h0 : ((0 : Nat) : Int) = 0 := rfl
   simp only [h0] at h1
